@@ -3,11 +3,14 @@ Correspondence at two levels: Python's csv module against Model/Delimited.v (wri
 rowio.DelimitedRowWriter / rowio.delimited_rows end to end under DataFormats accepted by DataFormat.validate."""
 import csv
 import io
+import os
 import itertools
 
 from cutplace import data, errors, rowio
 
 from common import B, L, O, P, S
+import common as _C
+TMP = os.path.join(_C.BUILD, "C12", "tmp")
 
 MODEL_FILES = ["Model/Delimited.v"]
 HEADER = """From CP Require Import Model.Base Model.Delimited.
@@ -63,8 +66,10 @@ def coq_obs(w, rows, ok):
     return P(O(w, S), T(rows), B(ok))
 
 
-def make_format(dspell, q, e, quoting, ld):
+def make_format(dspell, q, e, quoting, ld, encoding=None):
     df = data.DataFormat(data.FORMAT_DELIMITED)
+    if encoding:
+        df.set_property(data.KEY_ENCODING, encoding)
     df.set_property(data.KEY_ITEM_DELIMITER, dspell)
     df.set_property(data.KEY_QUOTE_CHARACTER, q)
     df.set_property(data.KEY_ESCAPE_CHARACTER, e)
@@ -101,34 +106,56 @@ def make_case(inp):
         return {"coq": P("(RCase %s %s)" % (dc, S(inp["text"])), coq_obs(None, rows, ok)), "obs": obs, "tags": ["csv-reader", "ok" if ok else "csv-error"], "nontrivial": True}
     # end to end
     try:
-        df = make_format(inp["delim_spelling"], inp["quote"], inp["escape"], inp["quoting"], inp["line_delimiter"])
+        df = make_format(inp["delim_spelling"], inp["quote"], inp["escape"], inp["quoting"], inp["line_delimiter"], "utf-8" if inp.get("file") else None)
     except errors.InterfaceError:
         obs = {"refused": True}
         # a refused format is outside the property; compare a trivial case so that the shard stays aligned
         return {"coq": P("(WCase (D 44%N 34%N None true false) [])", coq_obs("", [], True)), "obs": obs, "tags": ["format-refused"], "nontrivial": False}
     table = inp["table"]
-    target = io.StringIO(newline="")
+    use_file = bool(inp.get("file"))
+    if use_file:
+        # through a file both ways: the writer and the reader open the path themselves (encoding UTF-8 as declared)
+        os.makedirs(TMP, exist_ok=True)
+        target = os.path.join(TMP, "rt_%d.csv" % os.getpid())
+    else:
+        target = io.StringIO(newline="")
     w = None
     rows, ok = [], False
     try:
-        rowio.DelimitedRowWriter(target, df).write_rows(table)
-        w = target.getvalue()
+        if use_file:
+            with rowio.DelimitedRowWriter(target, df) as writer:
+                writer.write_rows(table)
+            with open(target, "r", encoding="utf-8", newline="") as fh:
+                w = fh.read()
+        else:
+            rowio.DelimitedRowWriter(target, df).write_rows(table)
+            w = target.getvalue()
         ok = True
         try:
-            for r in rowio.delimited_rows(io.StringIO(w, newline=""), df):
+            for r in rowio.delimited_rows(target if use_file else io.StringIO(w, newline=""), df):
                 rows.append(list(r))
-        except errors.DataFormatError:
+        except errors.DataFormatError as e2:
             ok = False
+            read_error = str(e2)[:120]
     except Exception as e:  # noqa  (csv.Error while writing, ...)
         obs_err = "%s: %s" % (type(e).__name__, e)
         obs = {"written": None, "rows": [], "ok": False, "error": obs_err, "delim": df.item_delimiter}
         c = "(RTCase %d%%N %d%%N %d%%N %s %s)" % (ord(df.item_delimiter), ord(df.quote_character), ord(df.escape_character), B(df.quoting == csv.QUOTE_ALL), T(table))
         return {"coq": P(c, coq_obs(None, [], False)), "obs": obs, "tags": ["rt", "write-error"], "nontrivial": True}
     obs = {"written": w, "rows": rows, "ok": ok, "delim": df.item_delimiter}
+    if not ok:
+        obs["read_error"] = read_error
     c = "(RTCase %d%%N %d%%N %d%%N %s %s)" % (ord(df.item_delimiter), ord(df.quote_character), ord(df.escape_character), B(df.quoting == csv.QUOTE_ALL), T(table))
     specials = {df.item_delimiter, df.quote_character, df.escape_character, "\r", "\n"}
     nontrivial = any(ch in specials for r in table for cell in r for ch in cell)
     return {"coq": P(c, coq_obs(w, rows, ok)), "obs": obs, "tags": ["rt", "escape=quote" if df.escape_character == df.quote_character else "escapechar"], "nontrivial": nontrivial}
+
+
+def classify(inp, obs, msg):
+    """the open finding: Python's csv module refuses fields longer than csv.field_size_limit() (131072 by default)"""
+    if inp.get("kind") == "rt" and "field larger than field limit" in (obs.get("read_error") or "") and any(len(c) > 131072 for r in inp["table"] for c in r):
+        return "C12/cell-longer-than-csv-field-limit"
+    return None
 
 
 def direct_oracle(inp, obs):
@@ -186,4 +213,11 @@ def gen_inputs(tier, rnd):
             specials = [q, e]
         alpha = specials + [" ", "\n", "\r", "x", "y", '"', "\\", ","]
         for _ in range(per):
-            yield {"kind": "rt", "delim_spelling": dsp, "quote": q, "escape": e, "quoting": quoting, "line_delimiter": ld, "table": gen_table(rnd, alpha)}
+            if rnd.random() < 0.25:
+                # through files, with characters some decoders treat specially as data (also at the very start of the file)
+                table = gen_table(rnd, alpha + ["\ufeff", "\u2028", "\x85", "\ufeff"])
+                if table and table[0] and rnd.random() < 0.5:
+                    table[0][0] = "\ufeff" + table[0][0]
+                yield {"kind": "rt", "delim_spelling": dsp, "quote": q, "escape": e, "quoting": quoting, "line_delimiter": ld, "table": table, "file": True}
+            else:
+                yield {"kind": "rt", "delim_spelling": dsp, "quote": q, "escape": e, "quoting": quoting, "line_delimiter": ld, "table": gen_table(rnd, alpha)}
